@@ -158,7 +158,16 @@ func (x *Exec) call(st *State, call *ast.CallExpr) []Term {
 	}
 	x.runGhost(st, x.ct.CallGhost["before@"+q], "before@"+q, call)
 	rs := x.callInner(st, call)
-	x.runGhost(st, x.ct.CallGhost["after@"+q], "after@"+q, call)
+	if gs := x.ct.CallGhost["after@"+q]; len(gs) > 0 {
+		// the call's results are visible to the ghost statements as $r0, $r1, ...
+		for i, r := range rs {
+			st.ghost[fmt.Sprintf("$r%d", i)] = r
+		}
+		x.runGhost(st, gs, "after@"+q, call)
+		for i := range rs {
+			delete(st.ghost, fmt.Sprintf("$r%d", i))
+		}
+	}
 	return rs
 }
 
@@ -580,13 +589,7 @@ func (x *Exec) intrinsic(st *State, call *ast.CallExpr, fn *types.Func, qual str
 		if len(call.Args) == 2 && x.isLvalue(call.Args[0]) {
 			cur := x.expr(st, call.Args[0])
 			if cur.Sort.Kind == KSlice && cur.Sort.Elem.Kind == KInt && x.isAscendingLess(call.Args[0], call.Args[1]) {
-				r := c.fresh("sorted", cur.Sort)
-				n := c.slLen(cur)
-				perm := c.fresh("perm", c.arrSort(sortInt, sortInt))
-				c.axiom(tEq(c.slLen(r), n))
-				c.axiom(Term{S: fmt.Sprintf("(forall ((a Int) (b Int)) (=> (and (<= 0 a) (< a b) (< b %s)) (<= (select %s a) (select %s b))))", n.S, c.slArr(r).S, c.slArr(r).S), Sort: sortBool})
-				c.axiom(Term{S: fmt.Sprintf("(forall ((a Int)) (! (=> (and (<= 0 a) (< a %s)) (and (<= 0 (select %s a)) (< (select %s a) %s) (= (select %s a) (select %s (select %s a))))) :pattern ((select %s a))))", n.S, perm.S, perm.S, n.S, c.slArr(r).S, c.slArr(cur).S, perm.S, c.slArr(r).S), Sort: sortBool})
-				c.axiom(Term{S: fmt.Sprintf("(forall ((a Int) (b Int)) (! (=> (and (<= 0 a) (< a b) (< b %s)) (not (= (select %s a) (select %s b)))) :pattern ((select %s a) (select %s b))))", n.S, perm.S, perm.S, perm.S, perm.S), Sort: sortBool})
+				r := x.sortedPermutation(cur)
 				c.note("assumed contract (dependency, unchecked): sort.Slice with an ascending '<' closure returns a sorted permutation")
 				x.assign(st, call.Args[0], r)
 				return nil, true
@@ -594,6 +597,29 @@ func (x *Exec) intrinsic(st *State, call *ast.CallExpr, fn *types.Func, qual str
 			x.havocLvalue(st, call.Args[0], cur)
 			c.note("sort.Slice with an unrecognised comparison: slice havocked")
 			return nil, true
+		}
+	case "sort.Sort", "sort.IsSorted":
+		// sort.Sort(Tokens(x)) / sort.IsSorted(Tokens(x)): the named slice type's Less is ascending '<'
+		// (ring.Tokens.Less carries that contract); the conversion shares x's backing array.
+		if len(call.Args) == 1 {
+			if conv, ok := ast.Unparen(call.Args[0]).(*ast.CallExpr); ok && len(conv.Args) == 1 {
+				if tv, ok := x.info.Types[conv.Fun]; ok && tv.IsType() {
+					if named, ok := types.Unalias(tv.Type).(*types.Named); ok && named.Obj().Name() == "Tokens" {
+						cur := x.expr(st, conv.Args[0])
+						if cur.Sort.Kind == KSlice && cur.Sort.Elem.Kind == KInt {
+							c.note("assumed contract (dependency, unchecked): " + qual + " over ring.Tokens (ascending Less, proved as Tokens.Less) " + map[string]string{"sort.Sort": "returns a sorted permutation in place", "sort.IsSorted": "reports non-strict ascending order"}[qual])
+							if qual == "sort.IsSorted" {
+								n := c.slLen(cur)
+								return []Term{{S: fmt.Sprintf("(forall ((a Int) (b Int)) (=> (and (<= 0 a) (< a b) (< b %s)) (<= (select %s a) (select %s b))))", n.S, c.slArr(cur).S, c.slArr(cur).S), Sort: sortBool}}, true
+							}
+							if x.isLvalue(conv.Args[0]) {
+								x.assign(st, conv.Args[0], x.sortedPermutation(cur))
+								return nil, true
+							}
+						}
+					}
+				}
+			}
 		}
 	case "time.Now":
 		t := x.freshOf("now", x.typeOf(call))
@@ -805,4 +831,21 @@ func (x *Exec) isAscendingLess(sl ast.Expr, fn ast.Expr) bool {
 	li, _ := l.Index.(*ast.Ident)
 	ri, _ := r.Index.(*ast.Ident)
 	return li != nil && ri != nil && li.Name == names[0] && ri.Name == names[1] && x.exprText(l.X) == want && x.exprText(r.X) == want
+}
+
+// sortedPermutation: a fresh slice that is a non-strictly ascending permutation of cur (witnessed by an injective index map).
+func (x *Exec) sortedPermutation(cur Term) Term {
+	c := x.c()
+	r := c.fresh("sorted", cur.Sort)
+	n := c.slLen(cur)
+	perm := c.fresh("perm", c.arrSort(sortInt, sortInt))
+	inv := c.fresh("perminv", c.arrSort(sortInt, sortInt))
+	c.axiom(tEq(c.slLen(r), n))
+	c.axiom(Term{S: fmt.Sprintf("(forall ((a Int) (b Int)) (=> (and (<= 0 a) (< a b) (< b %s)) (<= (select %s a) (select %s b))))", n.S, c.slArr(r).S, c.slArr(r).S), Sort: sortBool})
+	c.axiom(Term{S: fmt.Sprintf("(forall ((a Int)) (! (=> (and (<= 0 a) (< a %s)) (and (<= 0 (select %s a)) (< (select %s a) %s) (= (select %s a) (select %s (select %s a))) (= (select %s (select %s a)) a))) :pattern ((select %s a))))", n.S, perm.S, perm.S, n.S, c.slArr(r).S, c.slArr(cur).S, perm.S, inv.S, perm.S, c.slArr(r).S), Sort: sortBool})
+	// every input position is the image of an output position
+	c.axiom(Term{S: fmt.Sprintf("(forall ((b Int)) (! (=> (and (<= 0 b) (< b %s)) (and (<= 0 (select %s b)) (< (select %s b) %s) (= (select %s (select %s b)) b))) :pattern ((select %s b))))", n.S, inv.S, inv.S, n.S, perm.S, inv.S, c.slArr(cur).S), Sort: sortBool})
+	c.axiom(Term{S: fmt.Sprintf("(forall ((a Int) (b Int)) (! (=> (and (<= 0 a) (< a b) (< b %s)) (not (= (select %s a) (select %s b)))) :pattern ((select %s a) (select %s b))))", n.S, perm.S, perm.S, perm.S, perm.S), Sort: sortBool})
+	r.Go = cur.Go
+	return r
 }
